@@ -325,8 +325,17 @@ Degap == DegapT /\ Log("Degap", <<>>)
 DeepCopyT(sl) == (Aln \/ Coll) /\ sl \in BOOLEAN /\ Set(kind, mol, rows)
 DeepCopy(sl) == DeepCopyT(sl) /\ Log("DeepCopy", <<sl>>)
 
+(* Aliasing: the caller goes on using what it handed over to the call that made this object *)
+(* (it sorts / reverses / extends the list of names or columns, overwrites the index array), *)
+(* or modifies what an observer gave back (the dict of to_dict(), the list of seqs, the gap   *)
+(* array).  Neither is an operation on the alignment: every object made so far must read as  *)
+(* before -- a stuttering step for the rows.                                                  *)
+CallerReusesT(w) == (Aln \/ Coll) /\ w \in {"args", "returned"} /\ Set(kind, mol, rows)
+CallerReuses(w) == CallerReusesT(w) /\ Log("CallerReuses", <<w>>)
+
 Next ==
     \/ \E L \in Layouts, m \in Mols : Make(L, m)
+    \/ \E w \in {"args", "returned"} : CallerReuses(w)
     \/ \E p \in SlicePairs(N), f \in Forms : Slice(p[1], p[2], f)
     \/ \E i \in 0..MaxLen, f \in Forms : Index(i, f)
     \/ \E a \in {0, 1} \cap (0..N), k \in {0, 2} : Stride(a, k)
